@@ -147,3 +147,109 @@ fn c36_canary_merge_reachable() {
     let out = match merge_gnu_property_notes(states.iter(), None) { Ok(o) => o, Err(_) => return };
     assert!(out.is_empty(), "canary: must fail");
 }
+
+// ---- two input files, concrete shapes and concrete property types, symbolic data ----
+// (a symbolic type index / symbolic presence matrix exhausts CBMC for two files; with the shape
+// fixed per obligation the fold over two inputs is decided for every 32-bit data word)
+fn two_files(f0: &[(u32, u32)], f1: &[(u32, u32)]) -> Vec<GnuProperty> {
+    let mut v0 = Vec::with_capacity(2);
+    let mut i = 0;
+    while i < f0.len() { v0.push(GnuProperty { ptype: f0[i].0, data: f0[i].1 }); i += 1; }
+    let mut v1 = Vec::with_capacity(2);
+    let mut j = 0;
+    while j < f1.len() { v1.push(GnuProperty { ptype: f1[j].0, data: f1[j].1 }); j += 1; }
+    let states = [
+        ObjectLayoutStateExt { gnu_property_notes: v0, _p: core::marker::PhantomData },
+        ObjectLayoutStateExt { gnu_property_notes: v1, _p: core::marker::PhantomData },
+    ];
+    match merge_gnu_property_notes(states.iter(), None) {
+        Ok(o) => o,
+        Err(_) => { assert!(false, "classified types must merge"); Vec::new() }
+    }
+}
+
+// GNU ld's rule for one type over two inputs; `p0`/`p1`: values the type has in file 0 / file 1
+// (None = the file does not carry it; a file carrying it twice contributes both words, folded
+// with the class operator)
+fn expect_two(class: u8, p0: Option<u32>, p1: Option<u32>, and_v: u32, or_v: u32) -> Option<u32> {
+    let in_all = p0.is_some() && p1.is_some();
+    match class {
+        0 => if in_all && and_v != 0 { Some(and_v) } else { None },
+        1 => if or_v != 0 { Some(or_v) } else { None },
+        _ => if in_all { Some(or_v) } else { None },
+    }
+}
+
+fn check_single(out: &Vec<GnuProperty>, t: u32, expect: Option<u32>) {
+    match expect {
+        None => assert!(out.is_empty(), "a property that GNU ld drops is emitted"),
+        Some(v) => {
+            assert!(out.len() == 1, "merged property missing or emitted more than once");
+            assert!(out[0].ptype == t && out[0].data == v, "merged GNU property differs from GNU ld's AND/OR rule");
+        }
+    }
+}
+
+macro_rules! both_files_carry {
+    ($name:ident, $t:expr, $class:expr) => {
+        #[kani::proof]
+        #[kani::unwind(5)]
+        fn $name() {
+            let d0: u32 = kani::any();
+            let d1: u32 = kani::any();
+            let out = two_files(&[($t, d0)], &[($t, d1)]);
+            check_single(&out, $t, expect_two($class, Some(d0), Some(d1), d0 & d1, d0 | d1));
+        }
+    };
+}
+both_files_carry!(c36_two_files_both_carry_and_class, 0xc0000002, 0);
+both_files_carry!(c36_two_files_both_carry_or_class, 0xc0008002, 1);
+both_files_carry!(c36_two_files_both_carry_or_and_class, 0xc0010002, 2);
+both_files_carry!(c36_two_files_both_carry_generic_and_class, 0xb0000000, 0);
+
+// one file carries the type TWICE, the other carries no note at all: "present in every input"
+// is per FILE, not per entry
+macro_rules! duplicate_and_noteless {
+    ($name:ident, $t:expr, $class:expr) => {
+        #[kani::proof]
+        #[kani::unwind(5)]
+        fn $name() {
+            let d0: u32 = kani::any();
+            let d1: u32 = kani::any();
+            let out = two_files(&[($t, d0), ($t, d1)], &[]);
+            check_single(&out, $t, expect_two($class, Some(d0), None, d0 & d1, d0 | d1));
+        }
+    };
+}
+duplicate_and_noteless!(c36_two_files_duplicate_and_noteless_and_class, 0xc0000002, 0);
+duplicate_and_noteless!(c36_two_files_duplicate_and_noteless_or_class, 0xc0008002, 1);
+duplicate_and_noteless!(c36_two_files_duplicate_and_noteless_or_and_class, 0xc0010002, 2);
+
+// the two files carry DIFFERENT types: an AND-class type missing from one input is dropped, an
+// OR-class type survives, output sorted by type
+#[kani::proof]
+#[kani::unwind(5)]
+fn c36_two_files_different_types() {
+    let d0: u32 = kani::any();
+    let d1: u32 = kani::any();
+    // file 0: ISA_1_NEEDED (OR); file 1: FEATURE_1_AND (AND)
+    let out = two_files(&[(0xc0008002, d0)], &[(0xc0000002, d1)]);
+    check_single(&out, 0xc0008002, if d0 != 0 { Some(d0) } else { None });
+}
+
+#[kani::proof]
+#[kani::unwind(5)]
+fn c36_two_files_two_types_each_sorted() {
+    let a0: u32 = kani::any();
+    let a1: u32 = kani::any();
+    let o0: u32 = kani::any();
+    let o1: u32 = kani::any();
+    // both files carry an OR-class and an AND-class type, in opposite orders
+    let out = two_files(&[(0xc0008002, o0), (0xc0000002, a0)], &[(0xc0000002, a1), (0xc0008002, o1)]);
+    let and_v = a0 & a1;
+    let or_v = o0 | o1;
+    let n = (and_v != 0) as usize + (or_v != 0) as usize;
+    assert!(out.len() == n, "wrong number of merged properties");
+    if and_v != 0 { assert!(out[0].ptype == 0xc0000002 && out[0].data == and_v, "AND-class fold wrong or output unsorted"); }
+    if or_v != 0 { assert!(out[n - 1].ptype == 0xc0008002 && out[n - 1].data == or_v, "OR-class fold wrong or output unsorted"); }
+}
